@@ -331,7 +331,11 @@ func (node *TopNode) resolveMerge(binding *syntax.MergeExp, t syntax.Type,
 	} else {
 		forkRefId = binding.Call.GetFqid()
 	}
-	parts, errs := node.getParts(binding.GetCall(), fork, forkRefId)
+	matchId := fork
+	if ref, ok := binding.Value.(*syntax.RefExp); ok && len(ref.Forks) > 0 {
+		matchId = node.constrainFork(fork, ref.Forks, forkRefId)
+	}
+	parts, errs := node.getParts(binding.GetCall(), matchId, forkRefId)
 	if err := errs.If(); err != nil {
 		util.PrintError(err, "runtime",
 			"Resolving parts for %s.  This will likely result in further errors.",
@@ -439,6 +443,44 @@ func (node *TopNode) resolveMerge(binding *syntax.MergeExp, t syntax.Type,
 	panic("invalid mapping mode")
 }
 
+// constrainFork adds to the fork ID the indices of enclosing mapped calls
+// which a reference fixes statically (e.g. in the element for one fork of a
+// pipeline mapped over a literal array), so that a merge over that reference
+// only collects the forks the reference can refer to.
+func (node *TopNode) constrainFork(fork ForkId,
+	ref map[*syntax.CallStm]syntax.CollectionIndex, id string) ForkId {
+	boundNode := node.allNodes[id]
+	if boundNode == nil || len(boundNode.forkRoots) == 0 {
+		return fork
+	}
+	result := make(ForkId, 0, len(fork)+len(ref))
+	changed := false
+	for _, src := range boundNode.forkRoots {
+		if p, err := fork.matchPart(src); err == nil {
+			result = append(result, p)
+		} else if j := ref[src]; j != nil && j.IndexSource() == nil {
+			result = append(result, &ForkSourcePart{
+				Id: convertForkPart(j),
+				Split: &syntax.SplitExp{
+					Value:  &syntax.MergeExp{MergeOver: src},
+					Call:   src,
+					Source: src,
+				},
+			})
+			changed = true
+		}
+	}
+	if !changed {
+		return fork
+	}
+	for _, p := range fork {
+		if _, err := result.matchPart(p.Split.Call); err != nil {
+			result = append(result, p)
+		}
+	}
+	return result
+}
+
 // getParts returns the ForkSourcePart corresponding the the given call for
 // every fork of the given node which matches the given fork ID.
 func (node *TopNode) getParts(src *syntax.CallStm,
@@ -467,7 +509,21 @@ func (node *TopNode) getParts(src *syntax.CallStm,
 					})
 				}
 			} else if fork.forkId.Matches(forkId) {
-				matchingParts = append(matchingParts, p)
+				// When the node has further fork dimensions (e.g. a call
+				// which is itself mapped, inside the mapped pipeline),
+				// several of its forks share the same part.
+				seen := false
+				for _, other := range matchingParts {
+					if other == p || (other.Id.IndexSource() == nil &&
+						p.Id.IndexSource() == nil &&
+						indexEqual(other.Id, p.Id)) {
+						seen = true
+						break
+					}
+				}
+				if !seen {
+					matchingParts = append(matchingParts, p)
+				}
 			}
 		}
 		parts = matchingParts
